@@ -39,6 +39,7 @@ type Prog struct {
 	knownHeaps map[string]*HeapInfo
 	houdiniDone map[*ssa.Function]bool
 	callC     map[*ssa.Function]*Contract
+	houdiniPhase int
 	hints     map[string][]string
 	rebase    bool
 	ginit     map[string]*gInit
@@ -535,6 +536,20 @@ func (P *Prog) staticCallees(cc *ssa.CallCommon, out map[string]bool) []*ssa.Fun
 		return []*ssa.Function{v.Fn.(*ssa.Function)}
 	case *ssa.Builtin:
 		return nil
+	}
+	// a function value loaded from a struct field that has an (assumed) contract
+	if u, ok := cc.Value.(*ssa.UnOp); ok {
+		if fa, ok := u.X.(*ssa.FieldAddr); ok {
+			if pt, ok := under(fa.X.Type()).(*types.Pointer); ok {
+				if st, ok := under(pt.Elem()).(*types.Struct); ok {
+					key := "fieldfunc:" + typeName(pt.Elem()) + "." + st.Field(fa.Field).Name()
+					if c, ok := P.db.Funcs[key]; ok {
+						P.contractKeys(c, out)
+						return nil
+					}
+				}
+			}
+		}
 	}
 	out["*"] = true
 	return nil
